@@ -18,7 +18,7 @@ EXPLANATION = (
     "function argument in both directions (convert_into -> func(*self), convert_from -> func(data))."
 )
 NOT_DECIDED = ("round-trip EQUALITY of values, absence of duplicates across the whole file, arbitrary reference graphs (cycles, forward references), "
-               "serde data formats; the derive-generated conversions are C18")
+               "serde data formats; the derive-generated conversions are C18 R5 (who may delete): no body under saveload calls an entity-deleting API (EntitiesRes::delete, Allocator::kill*, World::delete_*): the entity a record resolves to may pre-exist the load or be referenced by records already read; expected count zero, matcher shown alive by the deleting call sites outside saveload.")
 TRUSTED = ["rustc nightly type checking and MIR", "serde", "sa/ analyses"]
 LEVEL_TEXT = ("Clause only: the writer's and the reader's tables agree (layouts per arity, per-position plumbing, id closures routed through the marker "
               "storage / retrieve_entity). Equality of the loaded world with the saved one quantifies over values and is NOT decided.")
